@@ -560,6 +560,17 @@ pub fn execute_c09(scn: &W4Scn, run_dir: &str) -> RunOutcome {
                 }
             }
             stats.probe("seeds_differ_checked");
+            // pairwise: the two neighbouring seeds (wrapping around the ends of the u64 domain) each give a different run
+            for (name, s2) in [("seed+1", seed.wrapping_add(1)), ("seed-1", seed.wrapping_sub(1))] {
+                let dk = guard(|| sim_shipped(scn, s2, false)).map_err(|m| v(scn, "agent-abort", "sim_runner", "no abort".into(), m))?;
+                if dk == d1 {
+                    return Err(v(scn, "nondeterministic", &format!("digest(seed {}) vs digest({} = {})", seed, name, s2), "different runs".into(), "identical runs".into())
+                        .detail("two different seeds give the same simulation although activity is guaranteed (>= 4 random traders acting every step over >= 5 steps)".into()));
+                }
+            }
+            if seed == 0 || seed >= u64::MAX - 1 {
+                stats.probe("seed_domain_end_checked");
+            }
             if all_equal {
                 return Err(v(scn, "nondeterministic", "16 distinct seeds", "not all outputs equal".into(), "all equal".into()).detail("the seed does not influence a simulation with guaranteed activity".into()));
             }
